@@ -1,4 +1,391 @@
-import AwModel.Store.Codec
-/-! # C01 — placeholder while the theorems are being written (no claims yet) -/
+import AwProofs.Lemmas.C01Codec
+import AwProofs.Lemmas.C01Store
+import AwProofs.Lemmas.StoreSqlite
+import AwProofs.Lemmas.StoreMemory
+import AwProofs.Lemmas.StorePeewee
+import AwProofs.Lemmas.HeapOwn
+import AwProofs.Lemmas.HeapRefine
+/-!
+# C01 — stored events come back exactly as inserted, and the store owns its copy
+
+Property theorems only.
+
+**Part A (values).** `Ev D` is an event with exact integer microseconds and data of any type `D`.
+What a client reads is `decode (stored row)`; the row codecs (`Codec.sqliteDecode`,
+`Codec.peeweeDecode`, identity for memory) are the float paths of the real code on the binary64
+model. The codec theorems say they are the identity for ms-aligned instants from 1970 whose end
+lies before 2^32 s = 2106-02-07 (sqlite) and for durations up to 2^43 µs ≈ 101 days (peewee);
+the `get_after_insert_*` / `bulk_insert_*` theorems compose them with the storage models:
+the inserted event gets an id that is fresh in its bucket, the bucket's list is the old list
+followed by the new events, and lookup by that id and the listing both return the event with
+exactly the instant, duration and data that were passed.
+
+**Part B (ownership, memory backend).** `Heap.State` is a heap of Python objects (event objects,
+metadata dicts, data dicts), the store's references into it and the set of objects the client
+holds; `Heap.api` is `aw_datastore/storages/memory.py`, `Heap.mutate` is anything the client can do
+to an object it holds, `Heap.observe` is everything reads can return, by value.
+`store_owns_copy`: in every state reachable by any interleaving of API calls and client mutations,
+no client mutation changes `observe`. The sqlite and peewee backends serialise every event and
+every metadata field into table rows on the way in and build new objects from rows on the way
+out: their model states (`Sqlite.St`, `Peewee.St`) contain values, no references, so there is
+nothing a client object could alias — nothing to prove beyond Part A.
+-/
 namespace AwProofs.C01
+open Aw Aw.Store
+variable {D : Type}
+
+/-! ## codecs -/
+
+/-- sqlite rows hold exact integer µs; reading goes through `datetime.fromtimestamp(v / 1e6)`
+    twice, a subtraction and the ms floor of the `Event` constructor: the identity for ms-aligned
+    starts `≥ 1970` with non-negative duration ending before 2^32·10^6 µs (2106-02-07) -/
+theorem sqlite_roundtrip (e : Ev D) (h0 : 0 ≤ e.ts) (hms : 1000 ∣ e.ts) (hd : 0 ≤ e.dur)
+    (h1 : e.ts + e.dur < 2 ^ 32 * 10 ^ 6) : Codec.sqliteDecode e = e :=
+  Codec.sqliteDecode_id e h0 hms hd (by omega)
+
+/-- peewee stores `duration.total_seconds()` (a double) and reads `timedelta(seconds=float)`:
+    the identity on every duration of 0 … 2^43 µs (≈ 101 days) at microsecond granularity -/
+theorem peewee_duration_roundtrip (d : Int) (h0 : 0 ≤ d) (h1 : d ≤ 2 ^ 43) : Codec.peeweeDur d = d :=
+  Codec.peeweeDur_id d h0 (by omega)
+
+/-- the peewee row codec is the identity for durations of 0 … 2^43 µs (the timestamp text round
+    trip is trusted to be the identity on ms-aligned UTC instants) -/
+theorem peewee_roundtrip (e : Ev D) (h0 : 0 ≤ e.dur) (h1 : e.dur ≤ 2 ^ 43) : Codec.peeweeDecode e = e :=
+  Codec.peeweeDecode_id e h0 (by omega)
+
+/-- memory: no codec at all — for every event (any instant, duration, data) inserted without an id,
+    lookup by the returned id gives back the event itself with that id -/
+theorem memory_roundtrip {s s' : Memory.St D} {b : String} {e : Ev D} {i : Int} (hI : Memory.Inv s)
+    (he : e.id = none) (h : Memory.insertOne s b e = .ok (s', some i)) :
+    Memory.getEvent s' b i = .ok (some { e with id := some i }) := by
+  obtain ⟨hb, hv, _⟩ := Memory.insertOne_view hI he h
+  obtain ⟨⟨m, es⟩, hs⟩ := Option.isSome_iff_exists.mp hb
+  have hv' : Memory.view s' b = some (m, es ++ [Spec.withId e i]) := by
+    rw [hv]; exact Spec.insert_apply hs i e
+  have hI' := Memory.insertOne_inv hI h
+  rw [Memory.getEvent_eq hI' hv']
+  exact congrArg _ (Spec.find_of_nodup (Memory.ids_nodup hI' hv').1 (by simp) rfl)
+
+/-! ## sqlite -/
+
+/-- sqlite: the id given to an inserted event is not the id of any event of any bucket -/
+theorem insert_assigns_fresh_id_sqlite {s s' : Sqlite.St D} {b : String} {e : Ev D} {i : Int}
+    (hI : Sqlite.Inv s) (h : Sqlite.insertOne s b e = .ok (s', i)) :
+    ∀ b', i ∉ Spec.ids (Sqlite.view s) b' :=
+  (Sqlite.insertOne_view' hI h).2.2
+
+/-- sqlite: in every reachable state every listed event has an id and the ids of a bucket are
+    pairwise distinct -/
+theorem ids_nodup_sqlite {s : Sqlite.St D} {b : String} {m : Meta} {es : List (Ev D)}
+    (hI : Sqlite.Inv s) (h : Sqlite.view s b = some (m, es)) :
+    (es.filterMap (·.id)).Nodup ∧ ∀ x ∈ es, x.id.isSome :=
+  Sqlite.ids_nodup hI h
+
+/-- sqlite, single insertion: the bucket's list is the old list followed by the event with its new
+    id; lookup by that id returns it; and under the range hypotheses the *decoded* lookup and the
+    decoded last entry of the listing are the event that was passed, with the id -/
+theorem get_after_insert_sqlite {s s' : Sqlite.St D} {b : String} {e : Ev D} {i : Int}
+    (hI : Sqlite.Inv s) (h : Sqlite.insertOne s b e = .ok (s', i)) :
+    ∃ m es, Sqlite.view s b = some (m, es) ∧
+      Sqlite.view s' b = some (m, es ++ [{ e with id := some i }]) ∧
+      Sqlite.getEvent s' b i = some { e with id := some i } ∧
+      (0 ≤ e.ts → 1000 ∣ e.ts → 0 ≤ e.dur → e.ts + e.dur < 2 ^ 32 * 10 ^ 6 →
+        (Sqlite.getEvent s' b i).map Codec.sqliteDecode = some { e with id := some i } ∧
+        (es ++ [{ e with id := some i }]).map Codec.sqliteDecode =
+          es.map Codec.sqliteDecode ++ [{ e with id := some i }]) := by
+  obtain ⟨hb, hv, _⟩ := Sqlite.insertOne_view' hI h
+  obtain ⟨⟨m, es⟩, hs⟩ := Option.isSome_iff_exists.mp hb
+  have hv' : Sqlite.view s' b = some (m, es ++ [Spec.withId e i]) := by
+    rw [hv]; exact Spec.insert_apply hs i e
+  have hI' := Sqlite.insertOne_inv hI h
+  have hg : Sqlite.getEvent s' b i = some (Spec.withId e i) := by
+    rw [Sqlite.getEvent_eq hI' hv']
+    exact Spec.find_of_nodup (Sqlite.ids_nodup hI' hv').1 (by simp) rfl
+  refine ⟨m, es, hs, hv', hg, fun h0 hms hd h1 => ?_⟩
+  have hc : Codec.sqliteDecode (Spec.withId e i) = Spec.withId e i :=
+    sqlite_roundtrip _ h0 hms hd h1
+  exact ⟨by rw [hg]; exact congrArg some hc, by rw [List.map_append, List.map_singleton, hc]⟩
+
+/-- sqlite, bulk insertion of id-less events: pairwise distinct ids, none of them in use in any
+    bucket before; the bucket's list is the old list followed by the events in order, each with
+    its id; lookup by each id returns the corresponding event; decoding the new entries is the
+    identity when every event is in range -/
+theorem bulk_insert_sqlite {s s' : Sqlite.St D} {b : String} {evs : List (Ev D)}
+    (hI : Sqlite.Inv s) (hb : (Sqlite.view s b).isSome) (hc : ∀ e ∈ evs, e.id = none)
+    (h : Sqlite.insertMany s b evs = .ok s') :
+    ∃ m es ids, Sqlite.view s b = some (m, es) ∧ ids.length = evs.length ∧ ids.Nodup ∧
+      (∀ i ∈ ids, ∀ b', i ∉ Spec.ids (Sqlite.view s) b') ∧
+      Sqlite.view s' b = some (m, es ++ (evs.zip ids).map (fun p => { p.1 with id := some p.2 })) ∧
+      (∀ p ∈ evs.zip ids, Sqlite.getEvent s' b p.2 = some { p.1 with id := some p.2 }) ∧
+      ((∀ e ∈ evs, 0 ≤ e.ts ∧ 1000 ∣ e.ts ∧ 0 ≤ e.dur ∧ e.ts + e.dur < 2 ^ 32 * 10 ^ 6) →
+        ((evs.zip ids).map (fun p => { p.1 with id := some p.2 })).map Codec.sqliteDecode =
+          (evs.zip ids).map (fun p => { p.1 with id := some p.2 })) := by
+  obtain ⟨ids, hlen, hnd, hfresh, hv⟩ := Sqlite.insertMany_view hI hb h
+  obtain ⟨hn, hsome⟩ := Spec.filter_isNone_of_all hc
+  rw [hn] at hlen
+  rw [hn, hsome, List.foldl_nil] at hv
+  obtain ⟨⟨m, es⟩, hs⟩ := Option.isSome_iff_exists.mp hb
+  have hv' : Sqlite.view s' b = some (m, es ++ (evs.zip ids).map (fun p => Spec.withId p.1 p.2)) := by
+    rw [hv]; exact Spec.foldl_insert_apply b _ _ m es hs
+  have hI' := Sqlite.insertMany_inv hI h
+  refine ⟨m, es, ids, hs, hlen, hnd, hfresh, hv', fun p hp => ?_, fun hr => ?_⟩
+  · rw [Sqlite.getEvent_eq hI' hv']
+    exact Spec.find_of_nodup (Sqlite.ids_nodup hI' hv').1
+      (List.mem_append_right _ (List.mem_map.mpr ⟨p, hp, rfl⟩)) rfl
+  · rw [List.map_map]
+    refine List.map_congr_left fun p hp => ?_
+    obtain ⟨h0, hms, hd, h1⟩ := hr p.1 (List.of_mem_zip hp).1
+    exact sqlite_roundtrip (Spec.withId p.1 p.2) h0 hms hd h1
+
+/-! ## memory -/
+
+/-- memory: the id given to an id-less event is not the id of any event of its bucket (memory ids
+    are per bucket) -/
+theorem insert_assigns_fresh_id_memory {s s' : Memory.St D} {b : String} {e : Ev D} {oi : Option Int}
+    (hI : Memory.Inv s) (he : e.id = none) (h : Memory.insertOne s b e = .ok (s', oi)) :
+    ∃ i, oi = some i ∧ i ∉ Spec.ids (Memory.view s) b := by
+  obtain ⟨i, hi, _, _, hf⟩ := Memory.insertOne_view' hI he h
+  exact ⟨i, hi, hf⟩
+
+/-- memory: every listed event has an id and the ids of a bucket are pairwise distinct -/
+theorem ids_nodup_memory {s : Memory.St D} {b : String} {m : Meta} {es : List (Ev D)}
+    (hI : Memory.Inv s) (h : Memory.view s b = some (m, es)) :
+    (es.filterMap (·.id)).Nodup ∧ ∀ x ∈ es, x.id.isSome :=
+  Memory.ids_nodup hI h
+
+/-- memory, single insertion of an id-less event: an id is returned; the bucket's list is the old
+    list followed by the event with that id; lookup by the id returns it — the very values that
+    were passed, for every instant, duration and data (there is no codec) -/
+theorem get_after_insert_memory {s s' : Memory.St D} {b : String} {e : Ev D} {oi : Option Int}
+    (hI : Memory.Inv s) (he : e.id = none) (h : Memory.insertOne s b e = .ok (s', oi)) :
+    ∃ i m es, oi = some i ∧ Memory.view s b = some (m, es) ∧
+      Memory.view s' b = some (m, es ++ [{ e with id := some i }]) ∧
+      Memory.getEvent s' b i = .ok (some { e with id := some i }) := by
+  obtain ⟨i, rfl, hb, hv, _⟩ := Memory.insertOne_view' hI he h
+  obtain ⟨⟨m, es⟩, hs⟩ := Option.isSome_iff_exists.mp hb
+  have hv' : Memory.view s' b = some (m, es ++ [Spec.withId e i]) := by
+    rw [hv]; exact Spec.insert_apply hs i e
+  exact ⟨i, m, es, rfl, hs, hv', memory_roundtrip hI he h⟩
+
+/-- memory, bulk insertion of id-less events: pairwise distinct ids, none of them in use in the
+    bucket before; the bucket's list is the old list followed by the events in order, each with
+    its id; lookup by each id returns the corresponding event unchanged -/
+theorem bulk_insert_memory {s s' : Memory.St D} {b : String} {evs : List (Ev D)}
+    (hI : Memory.Inv s) (hb : (Memory.view s b).isSome) (hc : ∀ e ∈ evs, e.id = none)
+    (h : Memory.insertMany s b evs = .ok s') :
+    ∃ m es ids, Memory.view s b = some (m, es) ∧ ids.length = evs.length ∧ ids.Nodup ∧
+      (∀ i ∈ ids, i ∉ Spec.ids (Memory.view s) b) ∧
+      Memory.view s' b = some (m, es ++ (evs.zip ids).map (fun p => { p.1 with id := some p.2 })) ∧
+      (∀ p ∈ evs.zip ids, Memory.getEvent s' b p.2 = .ok (some { p.1 with id := some p.2 })) := by
+  obtain ⟨ids, hlen, hnd, hfresh, hv⟩ := Memory.insertMany_view_new hI hb h hc
+  obtain ⟨⟨m, es⟩, hs⟩ := Option.isSome_iff_exists.mp hb
+  have hv' : Memory.view s' b = some (m, es ++ (evs.zip ids).map (fun p => Spec.withId p.1 p.2)) := by
+    rw [hv]; exact Spec.foldl_insert_apply b _ _ m es hs
+  have hI' := Memory.insertMany_inv hI h
+  refine ⟨m, es, ids, hs, hlen, hnd, hfresh, hv', fun p hp => ?_⟩
+  rw [Memory.getEvent_eq hI' hv']
+  exact congrArg _ (Spec.find_of_nodup (Memory.ids_nodup hI' hv').1
+    (List.mem_append_right _ (List.mem_map.mpr ⟨p, hp, rfl⟩)) rfl)
+
+/-! ## peewee -/
+
+/-- peewee: the id given to an id-less event is not the id of any event of any bucket -/
+theorem insert_assigns_fresh_id_peewee {s s' : Peewee.St D} {b : String} {e : Ev D} {oi : Option Int}
+    (hI : Peewee.Inv s) (he : e.id = none) (h : Peewee.insertOne s b e = .ok (s', oi)) :
+    ∃ i, oi = some i ∧ ∀ b', i ∉ Spec.ids (Peewee.view s) b' := by
+  obtain ⟨i, hi, _, _, hf⟩ := Peewee.insertOne_view hI he h
+  exact ⟨i, hi, hf⟩
+
+/-- peewee: every listed event has an id and the ids of a bucket are pairwise distinct -/
+theorem ids_nodup_peewee {s : Peewee.St D} {b : String} {m : Meta} {es : List (Ev D)}
+    (hI : Peewee.Inv s) (h : Peewee.view s b = some (m, es)) :
+    (es.filterMap (·.id)).Nodup ∧ ∀ x ∈ es, x.id.isSome :=
+  Peewee.ids_nodup hI h
+
+/-- peewee, single insertion of an id-less event: an id is returned; the bucket's list is the old
+    list followed by the event with that id; lookup by the id returns it; for a duration of
+    0 … 2^43 µs the *decoded* lookup and the decoded last entry of the listing are the event that
+    was passed, with the id -/
+theorem get_after_insert_peewee {s s' : Peewee.St D} {b : String} {e : Ev D} {oi : Option Int}
+    (hI : Peewee.Inv s) (he : e.id = none) (h : Peewee.insertOne s b e = .ok (s', oi)) :
+    ∃ i m es, oi = some i ∧ Peewee.view s b = some (m, es) ∧
+      Peewee.view s' b = some (m, es ++ [{ e with id := some i }]) ∧
+      Peewee.getEvent s' b i = .ok (some { e with id := some i }) ∧
+      (0 ≤ e.dur → e.dur ≤ 2 ^ 43 →
+        (Peewee.getEvent s' b i).map (fun o => o.map Codec.peeweeDecode) =
+          .ok (some { e with id := some i }) ∧
+        (es ++ [{ e with id := some i }]).map Codec.peeweeDecode =
+          es.map Codec.peeweeDecode ++ [{ e with id := some i }]) := by
+  obtain ⟨i, rfl, hb, hv, _⟩ := Peewee.insertOne_view hI he h
+  obtain ⟨⟨m, es⟩, hs⟩ := Option.isSome_iff_exists.mp hb
+  have hv' : Peewee.view s' b = some (m, es ++ [Spec.withId e i]) := by
+    rw [hv]; exact Spec.insert_apply hs i e
+  have hI' := Peewee.insertOne_inv hI h
+  have hg : Peewee.getEvent s' b i = .ok (some (Spec.withId e i)) := by
+    rw [Peewee.getEvent_eq hI' hv']
+    exact congrArg _ (Spec.find_of_nodup (Peewee.ids_nodup hI' hv').1 (by simp) rfl)
+  refine ⟨i, m, es, rfl, hs, hv', hg, fun h0 h1 => ?_⟩
+  have hc : Codec.peeweeDecode (Spec.withId e i) = Spec.withId e i := peewee_roundtrip _ h0 h1
+  refine ⟨?_, by rw [List.map_append, List.map_singleton, hc]⟩
+  rw [hg]
+  show Except.ok (some (Codec.peeweeDecode (Spec.withId e i))) = _
+  rw [hc]
+
+/-- peewee, bulk insertion of id-less events: pairwise distinct ids, none of them in use in any
+    bucket before; the bucket's list is the old list followed by the events in order, each with
+    its id; lookup by each id returns the corresponding event; decoding the new entries is the
+    identity when every duration is in 0 … 2^43 µs -/
+theorem bulk_insert_peewee {s s' : Peewee.St D} {b : String} {evs : List (Ev D)}
+    (hI : Peewee.Inv s) (hb : (Peewee.view s b).isSome) (hc : ∀ e ∈ evs, e.id = none)
+    (h : Peewee.insertMany s b evs = .ok s') :
+    ∃ m es ids, Peewee.view s b = some (m, es) ∧ ids.length = evs.length ∧ ids.Nodup ∧
+      (∀ i ∈ ids, ∀ b', i ∉ Spec.ids (Peewee.view s) b') ∧
+      Peewee.view s' b = some (m, es ++ (evs.zip ids).map (fun p => { p.1 with id := some p.2 })) ∧
+      (∀ p ∈ evs.zip ids, Peewee.getEvent s' b p.2 = .ok (some { p.1 with id := some p.2 })) ∧
+      ((∀ e ∈ evs, 0 ≤ e.dur ∧ e.dur ≤ 2 ^ 43) →
+        ((evs.zip ids).map (fun p => { p.1 with id := some p.2 })).map Codec.peeweeDecode =
+          (evs.zip ids).map (fun p => { p.1 with id := some p.2 })) := by
+  obtain ⟨ids, hlen, hnd, hfresh, hv⟩ := Peewee.insertMany_view hI hb h
+  obtain ⟨hn, hsome⟩ := Spec.filter_isNone_of_all hc
+  rw [hn] at hlen
+  rw [hn, hsome, List.foldl_nil] at hv
+  obtain ⟨⟨m, es⟩, hs⟩ := Option.isSome_iff_exists.mp hb
+  have hv' : Peewee.view s' b = some (m, es ++ (evs.zip ids).map (fun p => Spec.withId p.1 p.2)) := by
+    rw [hv]; exact Spec.foldl_insert_apply b _ _ m es hs
+  have hI' := Peewee.insertMany_inv hI h
+  refine ⟨m, es, ids, hs, hlen, hnd, hfresh, hv', fun p hp => ?_, fun hr => ?_⟩
+  · rw [Peewee.getEvent_eq hI' hv']
+    exact congrArg _ (Spec.find_of_nodup (Peewee.ids_nodup hI' hv').1
+      (List.mem_append_right _ (List.mem_map.mpr ⟨p, hp, rfl⟩)) rfl)
+  · rw [List.map_map]
+    refine List.map_congr_left fun p hp => ?_
+    obtain ⟨h0, h1⟩ := hr p.1 (List.of_mem_zip hp).1
+    exact peewee_roundtrip (Spec.withId p.1 p.2) h0 h1
+
+/-! ## ownership (memory backend) -/
+
+open Heap in
+/-- `separated`: in every reachable state no object reachable from the store — a bucket's metadata
+    dict, a stored event object, or the data dict behind either — is held by the client -/
+theorem separated {s : State} (h : Reachable s) : ∀ r, storeReach s r → s.client r = false :=
+  (reachable_sep h).sep
+
+open Heap in
+/-- every API call (create/update/delete bucket, get_metadata, buckets, insert_one, insert_many,
+    replace, replace_last, delete, get_event, get_events; any arguments) preserves the separation
+    invariant -/
+theorem api_preserves_separation {s : State} (h : Sep s) (a : Api) : Sep (api s a).1 :=
+  api_sep h a
+
+open Heap in
+/-- every client mutation of held objects preserves the separation invariant -/
+theorem mutation_preserves_separation {s : State} (h : Sep s) (m : Mut) (hm : m.held s = true) :
+    Sep (mutate s m) :=
+  mutate_sep h m hm
+
+open Heap in
+/-- the invariant holds initially and along every trace -/
+theorem reachable_separated {s : State} (h : Reachable s) : Sep s := reachable_sep h
+
+open Heap in
+/-- the store owns its copy: in every reachable state, whatever the client does to an object it
+    holds (the event it passed to insert, the event insert returned, an event or metadata dict a
+    read handed out, the dict it passed to create/update: set id / timestamp / duration, mutate the
+    data dict in place at any depth, assign another dict, overwrite metadata entries, create new
+    objects), everything reads return stays the same -/
+theorem store_owns_copy {s : State} (h : Reachable s) (m : Mut) (hm : m.held s = true) :
+    observe (mutate s m) = observe s :=
+  mutate_observe (reachable_sep h) m hm
+
+open Heap in
+/-- the same as a statement about trace steps (a mutation of an object the client does not hold is
+    not a step the client can take: `step` ignores it) -/
+theorem store_owns_copy_step {s : State} (h : Reachable s) (m : Mut) :
+    observe (step s (.mutation m)) = observe s := by
+  simp only [step]
+  split
+  · rename_i hm
+    exact store_owns_copy h m hm
+  · rfl
+
+open Heap in
+/-- the client of the model is as powerful as a real one: in every reachable state it holds the
+    data dict behind every event object and metadata dict it holds (so mutating that dict in
+    place, `Mut.setDict`, is a step it can take on everything it was ever handed) -/
+theorem client_holds_data {s : State} (h : Reachable s) {r d : Ref} (hr : s.client r = true)
+    (hd : dataRefOf s r = some d) : s.client d = true :=
+  (reachable_sep h).closed r hr d hd
+
+open Heap in
+/-- the heap model and the value model agree on `insert_one`: through `observe`, inserting a held
+    event object without an id is `Memory.insertOne` of the object's value (so the memory theorems
+    of part A describe what the heap model's reads return) -/
+theorem heap_insert_refines_value_model {s : State} (h : Reachable s) {b : String} {r : Ref}
+    {o : EvObj} {mr : Ref} {evs : List Ref} (hr : s.client r = true) (ho : evAt s r = some o)
+    (hid : o.id = none) (hl : lookup s.store b = some (mr, evs)) :
+    Memory.insertOne (observe s) b (evVal s r) =
+      .ok (observe (insertOne s b r).1, some (nextId s evs)) :=
+  insertOne_observe (reachable_sep h) hr ho hid hl
+
+open Heap in
+/-- what `insert_one` returns is a new client-held event object with the passed instant,
+    duration and data and the assigned id -/
+theorem heap_insert_returns {s : State} (h : Reachable s) {b : String} {r : Ref}
+    {o : EvObj} {mr : Ref} {evs : List Ref} (hr : s.client r = true) (ho : evAt s r = some o)
+    (hid : o.id = none) (hl : lookup s.store b = some (mr, evs)) :
+    (insertOne s b r).2 = .ref s.next ∧ (insertOne s b r).1.client s.next = true ∧
+      evVal (insertOne s b r).1 s.next = { evVal s r with id := some (nextId s evs) } :=
+  insertOne_returns (reachable_sep h) hr ho hid hl
+
+/-! ## the hypotheses are satisfiable (non-vacuity) -/
+
+/-- codec range hypotheses: an instant in 2023 with a sub-millisecond duration part; the 2^51 µs
+    region (2041) that the float encoding of the pinned tree got wrong; the last supported day -/
+example : Codec.sqliteDecode (⟨some 3, 1700000000123000, 1234567, 7⟩ : Ev Nat) =
+    ⟨some 3, 1700000000123000, 1234567, 7⟩ :=
+  sqlite_roundtrip _ (by decide) (by decide) (by decide) (by decide)
+example : Codec.sqliteDecode (⟨none, 2250741852732000, 2193231764772, ()⟩ : Ev Unit) =
+    ⟨none, 2250741852732000, 2193231764772, ()⟩ :=
+  sqlite_roundtrip _ (by decide) (by decide) (by decide) (by decide)
+example : Codec.peeweeDur 2592000000001 = 2592000000001 :=
+  peewee_duration_roundtrip _ (by decide) (by decide)
+
+/-- sqlite: two buckets with interleaved ids, insert into "a" -/
+example : ∃ s', Sqlite.insertOne Sqlite.exS "a" Sqlite.exEv = .ok (s', 4) ∧
+    Sqlite.getEvent s' "a" 4 = some { Sqlite.exEv with id := some 4 } := by
+  refine ⟨_, rfl, ?_⟩
+  obtain ⟨m, es, _, _, hg, _⟩ := get_after_insert_sqlite Sqlite.exS_inv (b := "a") (e := Sqlite.exEv) rfl
+  exact hg
+example := bulk_insert_sqlite Sqlite.exS_inv (b := "a") (evs := [Sqlite.exEv, Sqlite.exEv]) rfl
+  (by decide) rfl
+
+/-- memory: bucket "b" holds ids 0, 1, 2; the next id is 3 -/
+example : Memory.getEvent (Memory.setKey Memory.exSt "b"
+      (Memory.exMeta, Memory.exEvs ++ [⟨some 3, 7, 1, 30⟩])) "b" 3 = .ok (some ⟨some 3, 7, 1, 30⟩) :=
+  memory_roundtrip Memory.exSt_inv (e := ⟨none, 7, 1, 30⟩) rfl rfl
+example := bulk_insert_memory Memory.exSt_inv (b := "b") (evs := [⟨none, 7, 1, 30⟩, ⟨none, 7, 1, 31⟩])
+  rfl (by decide) rfl
+
+/-- peewee: ids are global (1, 2, 3 in use over two buckets); the next id is 4 -/
+example := get_after_insert_peewee Peewee.Example.inv0 (b := "a") (e := Peewee.Example.e0)
+  (oi := some 4) rfl rfl
+example := bulk_insert_peewee Peewee.Example.inv0 (b := "a")
+  (evs := [Peewee.Example.e0, Peewee.Example.e0]) rfl (by decide) rfl
+
+open Heap in
+/-- ownership: a reachable state with a stored event, in which the client holds the event it
+    passed (3), its dict (2) and the event `insert_one` returned (4) and mutates them -/
+example :
+    let tr : List Step := [.api (.createBucket "b" ⟨none, "t", "c", "h", "2020", "{}"⟩ none),
+      .mutation (.newEvent none 5 1 "{\"a\":1}"), .api (.insertOne "b" 3)]
+    let s := tr.foldl step {}
+    Reachable s ∧ (observe s).map (fun p => p.2.2) = [[⟨some 0, 5, 1, "{\"a\":1}"⟩]] ∧
+    (Mut.setDict 2 "{}").held s = true ∧ (Mut.setTs 4 9).held s = true ∧
+    observe (mutate s (.setDict 2 "{}")) = observe s := by
+  intro tr s
+  have hr : Reachable s :=
+    .step (.api (.insertOne "b" 3)) (.step (.mutation (.newEvent none 5 1 "{\"a\":1}"))
+      (.step (.api (.createBucket "b" ⟨none, "t", "c", "h", "2020", "{}"⟩ none)) .init))
+  exact ⟨hr, by decide, by decide, by decide, store_owns_copy hr _ (by decide)⟩
+
 end AwProofs.C01
